@@ -249,6 +249,10 @@ func (x *run) read() ([]byte, error) {
 func Exec(line string) string {
 	Init()
 	o := hx.Parse(line)
+	if o.Cmd == "sdata" { // the bytes covered by a publickey signature (buildDataSignedForAuth)
+		return hx.Hex(ssh.VerifBuildDataSignedForAuth(o.Hex("sid"), string(o.Hex("user")), string(o.Hex("svc")),
+			string(o.Hex("meth")), string(o.Hex("algo")), o.Hex("key")))
+	}
 	if o.Cmd != "sauth" {
 		return "bad-op"
 	}
